@@ -1296,7 +1296,7 @@ ecdsa_sign_be(ec_curve_p curve, uint8_t *hash, size_t hash_size,
 	/* HASH import. */
 	BN_RET_ON_ERR(bn_import_be_bin(&r, hash, MIN(hash_size, bytes)));
 	/* Random number. */
-	BN_RET_ON_ERR(bn_import_be_bin(&s, rnd, bytes));
+	BN_RET_ON_ERR(bn_import_be_bin(&s, rnd, MIN(rnd_size, bytes)));
 	/* Key import. */
 	BN_RET_ON_ERR(bn_import_be_bin(&d, priv_key, priv_key_size));
 	/* Get sign. */
@@ -1335,7 +1335,7 @@ ecdsa_sign_le(ec_curve_p curve, uint8_t *hash, size_t hash_size,
 	/* HASH import. */
 	BN_RET_ON_ERR(bn_import_le_bin(&r, hash, MIN(hash_size, bytes)));
 	/* Random number. */
-	BN_RET_ON_ERR(bn_import_le_bin(&s, rnd, bytes));
+	BN_RET_ON_ERR(bn_import_le_bin(&s, rnd, MIN(rnd_size, bytes)));
 	/* Key import. */
 	BN_RET_ON_ERR(bn_import_le_bin(&d, priv_key, priv_key_size));
 	/* Get sign. */
